@@ -42,6 +42,14 @@ func (c *Ctx) scanObligations(prop string) ([]*Obligation, map[string]interface{
 		out = append(out, obs...)
 		info["maporder "+d.File] = minfo
 	}
+	for _, d := range c.cf.Callers {
+		if d.Prop != prop {
+			continue
+		}
+		ob, cinfo := c.scanCallers(d)
+		out = append(out, ob)
+		info["callers "+d.Callee] = cinfo
+	}
 	for _, d := range c.cf.GlobalStates {
 		if d.Prop != prop {
 			continue
@@ -949,4 +957,78 @@ func (c *Ctx) scanGlobalState(d GlobalStateDirective) ([]*Obligation, string) {
 	ob := &Obligation{Name: "global.state#closed", Kind: "global.state", Fn: "package", Props: []string{d.Prop}, Backend: "ssa-scan", Status: "ok"}
 	out = append(out, ob)
 	return out, fmt.Sprintf("%d package-level variables can change after initialisation, all on the accepted list: %v", len(listed), listed)
+}
+
+// scanCallers: a call funnel.  Directive:  //@ callers Cxx Callee | caller, caller, ...
+// Every direct (static) call of Callee, and every place that takes it as a function
+// value, must be inside one of the listed functions (or their closures).
+func (c *Ctx) scanCallers(d CallersDirective) (*Obligation, string) {
+	allowed := map[string]bool{}
+	for _, a := range d.Allowed {
+		allowed[a] = true
+	}
+	var names []string
+	for n := range c.funcs {
+		names = append(names, n)
+	}
+	sort.Strings(names)
+	var bad, seen []string
+	for _, name := range names {
+		fn := c.funcs[name]
+		if fn.Blocks == nil {
+			continue
+		}
+		owner := name
+		if p := fn.Parent(); p != nil {
+			owner = p.RelString(c.tpkg)
+		}
+		for _, b := range fn.Blocks {
+			for _, in := range b.Instrs {
+				uses := false
+				if ci, ok := in.(ssa.CallInstruction); ok {
+					if f := ci.Common().StaticCallee(); f != nil && f.RelString(c.tpkg) == d.Callee {
+						uses = true
+					}
+				}
+				for _, op := range in.Operands(nil) {
+					if op == nil || *op == nil {
+						continue
+					}
+					if f, ok := (*op).(*ssa.Function); ok && f.RelString(c.tpkg) == d.Callee {
+						uses = true
+					}
+				}
+				if !uses {
+					continue
+				}
+				if allowed[owner] || allowed[name] {
+					seen = append(seen, name)
+					continue
+				}
+				bad = append(bad, fmt.Sprintf("%s uses %s at %s", name, d.Callee, c.posStr(in.Pos())))
+			}
+		}
+	}
+	ob := &Obligation{Name: "call.funnel[" + d.Callee + "]", Kind: "call.funnel", Fn: d.Callee, Props: []string{d.Prop}, Backend: "ssa-scan", Status: "ok"}
+	if _, ok := c.funcs[d.Callee]; !ok {
+		ob.Status = "failed"
+		ob.Model = "no function " + d.Callee
+	}
+	if len(bad) > 0 {
+		ob.Status = "failed"
+		ob.Model = strings.Join(bad, "; ")
+	}
+	return ob, fmt.Sprintf("%s is called only from %v", d.Callee, dedupStrings(seen))
+}
+
+func dedupStrings(in []string) []string {
+	m := map[string]bool{}
+	var out []string
+	for _, s := range in {
+		if !m[s] {
+			m[s] = true
+			out = append(out, s)
+		}
+	}
+	return out
 }
